@@ -274,25 +274,28 @@ def binarySearchBefore (ts : List Int) (tNs : Int) (lo hi : Nat) : BT :=
 def btFinish (ts : List Int) (tNs : Int) (hi lo : Nat) : BT :=
   if hi = lo + 1 then .found lo else binarySearchBefore ts tNs lo hi
 
+/-- one round of the estimate loop; `k` continues the loop with (estimateHeight, highBoundary, lowBoundary) -/
+def btBody (ts : List Int) (tNs tSec : Int) (frontierH : Nat) (k : Nat → Option Nat → Option Nat → BT)
+    (est : Nat) (high low : Option Nat) : BT :=
+  match tsAt ts est with
+  | none => .err
+  | some b =>
+    if b * nsPerSec ≥ tNs then
+      -- highBoundary = block; gap := uint64(block.ts - timeSec); if gap <= 0 { gap = 1 }
+      let gap0 := toUInt64 (b - tSec)
+      let gap := if gap0 = 0 then 1 else gap0
+      if est ≤ gap then btFinish ts tNs est 1        -- lowBoundary = genesis; break
+      else k (est - gap) (some est) low
+    else
+      -- lowBoundary = block; estimateHeight = block.Height + uint64(timeSec - block.ts)
+      let est' := (est + toUInt64 (tSec - b)) % two64
+      k est' (if est' > frontierH then some frontierH else high) (some est)
+
 /-- the estimate loop `for highBoundary == nil || lowBoundary == nil`; boundaries are heights -/
 def btLoop (ts : List Int) (tNs tSec : Int) (frontierH : Nat) : Nat → Nat → Option Nat → Option Nat → BT
   | _, _, some hi, some lo => btFinish ts tNs hi lo
   | 0, _, _, _ => .hang
-  | fuel + 1, est, high, low =>
-    match tsAt ts est with
-    | none => .err
-    | some b =>
-      if b * nsPerSec ≥ tNs then
-        -- highBoundary = block; gap := uint64(block.ts - timeSec); if gap <= 0 { gap = 1 }
-        let gap0 := toUInt64 (b - tSec)
-        let gap := if gap0 = 0 then 1 else gap0
-        if est ≤ gap then btFinish ts tNs est 1        -- lowBoundary = genesis; break
-        else btLoop ts tNs tSec frontierH fuel (est - gap) (some est) low
-      else
-        -- lowBoundary = block; estimateHeight = block.Height + uint64(timeSec - block.ts)
-        let est' := (est + toUInt64 (tSec - b)) % two64
-        let high' := if est' > frontierH then some frontierH else high
-        btLoop ts tNs tSec frontierH fuel est' high' (some est)
+  | fuel + 1, est, high, low => btBody ts tNs tSec frontierH (btLoop ts tNs tSec frontierH fuel) est high low
 
 /-- `momentumStore.GetMomentumBeforeTime(t)`; `tNs` = t.UnixNano(), chain non-empty (genesis = height 1).
     The fuel (2·height+4 rounds) is never exhausted when the loop makes progress; see
@@ -309,6 +312,17 @@ def getMomentumBeforeTime (ts : List Int) (tNs : Int) : BT :=
       let est := if frontierH > gap then frontierH - gap else 1
       btLoop ts tNs tSec frontierH (2 * frontierH + 4) est none none
   | _, _ => .err
+
+/-! ## Election cache (consensus/election.go `electionManager.generateProducers`, consensus/storage/db.go)
+The result is stored under the HASH of the proof momentum and returned from there when present. -/
+
+/-- `em.generateProducers(proofBlock)`: `cached, _ := db.GetElectionResultByHash(hash); if cached != nil { return cached }`,
+    otherwise compute from the store of the proof momentum and store it. Returns (result, new cache). -/
+def generateProducersCached (cache : Bytes → Option (List Bytes)) (compute : Bytes → List Bytes) (proofHash : Bytes) :
+    List Bytes × (Bytes → Option (List Bytes)) :=
+  match cache proofHash with
+  | some r => (r, cache)
+  | none => (compute proofHash, fun h => if h = proofHash then some (compute proofHash) else cache h)
 
 /-! ## Momentum verifier (verifier/momentum.go, vm/supervisor.go ApplyMomentum)
 The ORDER of the checks is not written here: it is read from the generated lists `Gen.MV_raw_all` and
